@@ -209,6 +209,14 @@ def compare_solution(spec, ref, sol, tol=TOL):
         if t == T - 1:
             if not np.array_equal(np.isneginf(got), np.isneginf(exp)):
                 msgs.append(f"t={t}: -inf pattern of the last period differs")
+        else:
+            # a state whose every feasible choice leads to -inf (e.g. into a last-period state
+            # without a feasible choice) has value -inf; NaN entries of the reference (0 * inf)
+            # are not judged
+            ninf = np.isneginf(exp)
+            if ninf.any() and not np.isneginf(got[ninf]).all():
+                i = tuple(np.argwhere(ninf & ~np.isneginf(got))[0])
+                msgs.append(f"t={t}: reference value at {i} is -inf (every feasible choice leads to a state of value -inf), lcm returns {got[i]!r}")
     return msgs
 
 
